@@ -172,6 +172,9 @@ inductive FTy
   /-- `int` meaning "value, or unset when not positive": read with `toInt()` (garbage ⇒ 0), written when `> 0`
   (`QXmppStanza::Error::code`).  Every non-positive number is the one value "unset". -/
   | posInt (bits : Nat)
+  /-- a signed `int` read with `toInt()` (garbage, out of range ⇒ 0) and printed with `QString::number`; range
+  `[-2^bits, 2^bits)` (presence priority, MUC status codes); `zeroEmpty`: 0 is printed as nothing (`if (priority != 0)`) -/
+  | sint (bits : Nat) (zeroEmpty : Bool)
   /-- `bool`: true iff the string is one of `trues`; written as the first of them -/
   | flag (trues : List Str)
   /-- `std::optional<Enum>` via `enumFromString`: index into `names`, unknown ⇒ nullopt -/
@@ -202,6 +205,10 @@ inductive Val
   | absent
   | record (vs : List Val)
   | list (items : List Val)
+  /-- an uninterpreted child tree (`QXmppElement`) -/
+  | node (t : Node)
+  /-- a signed C++ integer: sign and magnitude (`neg` only with a non-zero magnitude) -/
+  | int (neg : Bool) (mag : Nat)
   deriving Repr, BEq, Inhabited
 
 /-- `QString::toLower()` as far as it matters for a comparison with an all-ASCII lower-case name: `A`–`Z` and
@@ -223,6 +230,9 @@ def FTy.parse : FTy → Str → Val
   | .optInt b, s => .opt (countOfSigned none (strictInt b s))
   | .optIntZ b, s => .opt (countOfSigned (some 0) (strictInt b s))
   | .posInt b, s => .opt (posOfSigned (strictInt b s))
+  | .sint b _, s => match strictInt b s with
+    | some (neg, m) => .int (neg && m != 0) m
+    | none => .int false 0
   | .flag ts, s => .flag (ts.contains s)
   | .enum ns, s => .opt (idxOf s ns)
   | .enumD ns d, s => .nat (match idxOf s ns with | some i => i | none => d)
@@ -238,6 +248,7 @@ def FTy.show : FTy → Val → Str
   | .optInt _, .opt (some n) => natToStr n
   | .optIntZ _, .opt (some n) => natToStr n
   | .posInt _, .opt (some n) => natToStr n
+  | .sint _ ze, .int neg m => if ze && m == 0 then [] else if neg then '-' :: natToStr m else natToStr m
   | .flag ts, .flag true => ts.headD []
   | .enum ns, .opt (some i) => nth ns i
   | .enumD ns _, .nat i => nth ns i
@@ -255,6 +266,7 @@ def FTy.isDefault : FTy → Val → Bool
   | .optInt _, .opt i => i.isNone
   | .optIntZ _, .opt i => i.isNone
   | .posInt _, .opt i => i.isNone
+  | .sint _ _, .int _ m => m == 0
   | .flag _, .flag b => !b
   | .enum _, .opt i => i.isNone
   | .enumD _ d, .nat i => i == d
@@ -275,6 +287,7 @@ def FTy.canon : FTy → Val → Bool
   | .optIntZ b, .opt (some n) => n < 2 ^ b
   | .posInt _, .opt Option.none => true
   | .posInt b, .opt (some n) => 0 < n && n < 2 ^ b
+  | .sint b _, .int neg m => if neg then 0 < m && m ≤ 2 ^ b else m < 2 ^ b
   | .flag _, .flag _ => true
   | .enum _, .opt Option.none => true
   | .enum ns, .opt (some i) => i < ns.length
@@ -327,6 +340,64 @@ mutual
     | k :: ks => deepText k ++ deepTextList ks
 end
 
+/-! ## uninterpreted children (`QXmppElement`, `QXmppElementList`)
+
+What a stanza does not understand it keeps as `QXmppElement`s and writes back.  `QXmppElement(QDomElement)` is not the
+identity on trees: it keeps the tag, an `xmlns` attribute exactly when the element's namespace differs from its
+parent's, every other attribute with a NON-EMPTY value, the concatenation of the direct text children (written FIRST)
+and the child elements, recursively.  `normE pns` is that function for an element found where the namespace `pns` is in
+scope.  (As repaired by fixes/C02-qxmppelement-keeps-xmlns-undeclaration.diff: the code before it dropped an `xmlns=""`
+that un-declares the parent's namespace, so the element changed namespace — recorded findings
+`…:input-has-xmlns-undeclaration`.) -/
+
+def directText : List Node → Str
+  | [] => []
+  | .text s :: ks => s ++ directText ks
+  | .elem .. :: ks => directText ks
+
+def keptAttrs (as : List (Str × Str)) : List (Str × Str) := as.filter fun kv => kv.1 != "xmlns".toList && !kv.2.isEmpty
+
+mutual
+  def normE (pns : Str) : Node → Node
+    | .text s => .text s
+    | .elem n as ks =>
+      let ns := (Node.elem n as []).nsOf pns
+      .elem n ((if ns == pns then [] else [("xmlns".toList, ns)]) ++ keptAttrs as)
+        ((if (directText ks).isEmpty then [] else [.text (directText ks)]) ++ normEs ns ks)
+  def normEs (pns : Str) : List Node → List Node
+    | [] => []
+    | .text _ :: ks => normEs pns ks
+    | .elem n as ks' :: ks => normE pns (.elem n as ks') :: normEs pns ks
+end
+
+mutual
+  /-- decidable equality of trees (the derived `BEq` of `Node` has no lawfulness proof) -/
+  def nodeEq : Node → Node → Bool
+    | .text a, .text b => a == b
+    | .elem n as ks, .elem m bs ls => n == m && as == bs && nodesEq ks ls
+    | _, _ => false
+  def nodesEq : List Node → List Node → Bool
+    | [], [] => true
+    | a :: as, b :: bs => nodeEq a b && nodesEq as bs
+    | _, _ => false
+end
+
+/-- a pattern of child elements: tag and / or namespace fixed -/
+structure Pat where
+  tag : Option Str
+  ns : Option Str
+  deriving Repr, BEq, DecidableEq
+
+def Pat.matches (p : Pat) (pns : Str) (k : Node) : Bool :=
+  k.isElem && (match p.tag with | none => true | some t => k.name == t)
+    && (match p.ns with | none => true | some n => k.nsOf pns == n)
+
+/-- the pattern matches every element with this (tag, namespace) -/
+def Pat.covers (p : Pat) (hd : Str × Str) : Bool :=
+  (match p.tag with | none => true | some t => hd.1 == t) && (match p.ns with | none => true | some n => hd.2 == n)
+
+def exclAny (excl : List Pat) (pns : Str) (k : Node) : Bool := excl.any fun p => p.matches pns k
+
 /-- how a child element is written and looked up -/
 structure Head where
   tag : Str
@@ -365,6 +436,10 @@ def pickChild (last : Bool) (p : Node → Bool) (kids : List Node) : Option Node
 def Head.matches (h : Head) (pns : Str) (k : Node) : Bool :=
   k.isElem && (h.anyTag || k.name == h.tag) && (h.anyNs || k.nsOf pns == h.ns)
 
+/-- the pattern claims at least every element a lookup "tag `tag` (any when `anyTag`), namespace `ns` (any when `anyNs`)" can see -/
+def Pat.coversLookup (p : Pat) (anyTag : Bool) (tag : Str) (anyNs : Bool) (ns : Str) : Bool :=
+  (match p.tag with | none => true | some t => !anyTag && tag == t) && (match p.ns with | none => true | some n => !anyNs && ns == n)
+
 /-- `firstChildElement(parent, {}, ns)`'s test (any tag) -/
 def matchesNs (ns : Str) (anyNs : Bool) (pns : Str) (k : Node) : Bool :=
   k.isElem && (anyNs || k.nsOf pns == ns)
@@ -388,14 +463,22 @@ inductive ChildMode
   condition == NoCondition) return;`); without them the class treats the element as absent, so it also READS as absent
   (all defaults) — canonical values have all fields unset when the marked ones are -/
   | wrapGuard (mask : List Bool)
+  /-- the conjunctive variant: the element is written only when EVERY field marked in `mask` writes something
+  (`if (!node.isEmpty() && !ver.isEmpty() && !hash.isEmpty())`), and reads as absent otherwise -/
+  | wrapAll (mask : List Bool)
   deriving Repr, BEq, DecidableEq
 
 def ChildMode.isGuard : ChildMode → Bool
   | .wrapGuard _ => true
   | _ => false
 
+def ChildMode.isAll : ChildMode → Bool
+  | .wrapAll _ => true
+  | _ => false
+
 def ChildMode.guardN : ChildMode → List Bool
   | .wrapGuard m => m
+  | .wrapAll m => m
   | _ => []
 
 inductive Field
@@ -407,6 +490,9 @@ inductive Field
   /-- attribute that the parser reads under one name and the writer writes under ANOTHER (a defect of the class:
   `attribute("queryId")` / `writeAttribute("queryid", …)`; never well-formed, `wfF` is false) -/
   | attrRW (rname wname : Str) (ty : FTy) (omitD : Bool)
+  /-- MANDATORY attribute: always written; an element where it reads as the default (absent, empty, unknown) is rejected
+  by `fromDom`, or skipped when it is a repeated item (`isValid()`) -/
+  | attrReq (name : Str) (ty : FTy)
   /-- the element's own text content -/
   | text (ty : FTy)
   /-- optional child whose TAG is the value (`<failed><item-not-found xmlns=…/></failed>`): the first
@@ -437,6 +523,12 @@ inductive Field
   Value: `.record [.nat type, V, .list options]`, V = `.absent | .str s` / `.flag b` / `.list [.str …]`. -/
   | formValue (attr : Str) (names : List Str) (dflt : Nat) (vh : Head) (kinds : List Nat) (dropsEmpty : Bool)
       (oh : Head) (ofs : List Field) (optFor : List Nat)
+  /-- the REST: every child element that no sibling field claims, kept as an uninterpreted tree in document order
+  (`QXmppElementList extensions`).  `excl` lists what the siblings claim (`if (tag == … ) … else unknown << child`);
+  well-formedness demands that it covers every sibling's lookup and everything a sibling writes, so the children are
+  PARTITIONED between the typed fields and the rest.  `pns` is the namespace in scope inside the element.
+  Value: `.list [.node t, …]`; canonical: each `t` an element outside `excl` with `normE pns t = t`. -/
+  | rest (pns : Str) (excl : List Pat)
   deriving Repr
 
 /-- `<tag>text</tag>` child (`writeXmlTextElement` / `writeOptionalXmlTextElement`) -/
@@ -456,6 +548,14 @@ def Val.isSomeOpt : Val → Bool
 def Val.tagParts : Val → Option (Option Nat × Str)
   | .record [.opt i, .str t] => some (i, t)
   | _ => none
+
+def Val.getNode : Val → Node
+  | .node t => t
+  | _ => .text []
+
+def Val.isNode : Val → Bool
+  | .node _ => true
+  | _ => false
 
 def Val.getStr : Val → Str
   | .str s => s
@@ -512,6 +612,7 @@ mutual
     | .attr name ty omitD, v => (if omitD && ty.isDefault v then [] else [(name, ty.show v)], [])
     | .attrReadOnly _ _, _ => ([], [])
     | .attrRW _ wname ty omitD, v => (if omitD && ty.isDefault v then [] else [(wname, ty.show v)], [])
+    | .attrReq name ty, v => ([(name, ty.show v)], [])
     | .text ty, v => ([], textNode (ty.show v))
     | .enumChild ns decl _ names _, v =>
       match v with
@@ -526,7 +627,7 @@ mutual
       | .record vs =>
         let r := encFs fs vs
         if mode == .wrapOmit && r.1.isEmpty && r.2.isEmpty then ([], [])
-        else if mode.isGuard && guardEmpty mode.guardN fs vs then ([], [])
+        else if (mode.isGuard && guardEmpty mode.guardN fs vs) || (mode.isAll && guardSome mode.guardN fs vs) then ([], [])
         else ([], [h.mk' r.1 r.2])
       | _ => ([], [])
     | .many h fs _, v =>
@@ -543,6 +644,10 @@ mutual
         ([(a, nth names i)], formValueKids vh (kinds.getD i 0) de w ++
           (if optFor.contains i then os.map fun it => let r := encFs ofs it.recVals; oh.mk' r.1 r.2 else []))
       | none => ([], [])
+    | .rest _ _, v =>
+      match v with
+      | .list items => ([], items.map Val.getNode)
+      | _ => ([], [])
   def encFs : List Field → List Val → List (Str × Str) × List Node
     | [], _ => ([], [])
     | _ :: _, [] => ([], [])
@@ -558,10 +663,44 @@ mutual
     | b :: bs, f :: fs, v :: vs =>
       let a := encF f v
       (!b || (a.1.isEmpty && a.2.isEmpty)) && guardEmpty bs fs vs
+  /-- some field marked in the mask writes nothing -/
+  def guardSome : List Bool → List Field → List Val → Bool
+    | [], _, _ => false
+    | _ :: _, [], _ => false
+    | _ :: _, _ :: _, [] => false
+    | b :: bs, f :: fs, v :: vs =>
+      let a := encF f v
+      (b && a.1.isEmpty && a.2.isEmpty) || guardSome bs fs vs
 end
 
 def guardOff (mode : ChildMode) (fs : List Field) (vs : List Val) : Bool :=
-  mode.isGuard && guardEmpty mode.guardN fs vs
+  (mode.isGuard && guardEmpty mode.guardN fs vs) || (mode.isAll && guardSome mode.guardN fs vs)
+
+/-- the mask marks at least one field -/
+def maskHits : List Bool → List Field → Bool
+  | b :: bs, _ :: fs => b || maskHits bs fs
+  | _, _ => false
+
+/-! mandatory parts: `fromDom` rejects the element when they are missing; a repeated item whose mandatory parts are missing is
+SKIPPED (`if (address.isValid()) list << address`). -/
+mutual
+  /-- mandatory parts carry a value -/
+  def mandF : Field → Val → Bool
+    | .enumChild _ _ _ _ m, v => !m || v.isSomeOpt
+    | .attrReq _ ty, v => !ty.isDefault v
+    | .many _ _ ne, v =>
+      match v with
+      | .list items => !ne || !items.isEmpty
+      | _ => true
+    | .child _ fs mode, v =>
+      match v with
+      | .record vs => mode == .optional || mandOK fs vs
+      | _ => true
+    | _, _ => true
+  def mandOK : List Field → List Val → Bool
+    | f :: fs, v :: vs => mandF f v && mandOK fs vs
+    | _, _ => true
+end
 
 /-! ## decode (total on every tree) -/
 
@@ -571,6 +710,7 @@ mutual
     | .attr name ty _ => ty.parse (attr x.attrs name)
     | .attrReadOnly name ty => ty.parse (attr x.attrs name)
     | .attrRW rname _ ty _ => ty.parse (attr x.attrs rname)
+    | .attrReq name ty => ty.parse (attr x.attrs name)
     | .text ty => ty.parse (deepText x)
     | .enumChild ns _ anyNs names _ =>
       match x.kids.find? (matchesNs ns anyNs pns) with
@@ -590,12 +730,14 @@ mutual
         else .record (decFs (k.nsOf pns) k fs)
       | none => if mode == .optional then .absent else .record (decFs h.ns nullNode fs)
     | .many h fs _ =>
-      .list ((x.kids.filter (h.matches pns)).map fun k => .record (decFs (k.nsOf pns) k fs))
+      .list ((x.kids.filter (h.matches pns)).filterMap fun k =>
+        if mandOK fs (decFs (k.nsOf pns) k fs) then some (.record (decFs (k.nsOf pns) k fs)) else none)
     | .strSet h => .list ((mkSet ((x.kids.filter (h.matches pns)).map deepText)).map Val.str)
     | .formValue a names dflt vh kinds _ oh ofs optFor =>
       let i := enumIdxD (attr x.attrs a) names dflt
       .record [.nat i, formValueOf (kinds.getD i 0) ((x.kids.filter (vh.matches pns)).map deepText),
         .list (if optFor.contains i then (x.kids.filter (oh.matches pns)).map fun k => .record (decFs (k.nsOf pns) k ofs) else [])]
+    | .rest p excl => .list ((x.kids.filter fun k => k.isElem && !exclAny excl p k).map fun k => .node (normE p k))
   def decFs (pns : Str) (x : Node) : List Field → List Val
     | [] => []
     | f :: fs => decF pns x f :: decFs pns x fs
@@ -608,6 +750,7 @@ mutual
     | .attr _ ty _, v => ty.canon v
     | .attrReadOnly _ ty, v => ty.canon v
     | .attrRW _ _ ty _, v => ty.canon v
+    | .attrReq _ ty, v => ty.canon v
     | .text ty, v => ty.canon v
     | .enumChild _ _ _ names _, v =>
       match v with
@@ -628,7 +771,7 @@ mutual
     | .many _ fs _, v =>
       match v with
       | .list items => items.all fun it => match it with
-        | .record vs => canonFs fs vs
+        | .record vs => canonFs fs vs && mandOK fs vs
         | _ => false
       | _ => false
     | .strSet _, v =>
@@ -644,6 +787,11 @@ mutual
             | _ => false
            else os.isEmpty)
       | none => false
+    | .rest p excl, v =>
+      match v with
+      | .list items => items.all fun it => it.isNode && it.getNode.isElem && !exclAny excl p it.getNode
+          && nodeEq (normE p it.getNode) it.getNode
+      | _ => false
   def canonFs : List Field → List Val → Bool
     | [], [] => true
     | f :: fs, v :: vs => canonF f v && canonFs fs vs
@@ -657,6 +805,7 @@ def Field.heads : Field → List (Str × Str)
   | .attr .. => []
   | .attrReadOnly .. => []
   | .attrRW .. => []
+  | .attrReq .. => []
   | .text _ => []
   | .enumChild ns _ _ names _ => names.map fun n => (n, ns)
   | .tagChild ns _ _ names _ _ _ _ => names.map fun n => (n, ns)
@@ -664,11 +813,17 @@ def Field.heads : Field → List (Str × Str)
   | .many h _ _ => [(h.tag, h.ns)]
   | .strSet h => [(h.tag, h.ns)]
   | .formValue _ _ _ vh _ _ oh _ _ => [(vh.tag, vh.ns), (oh.tag, oh.ns)]
+  | .rest .. => []
+
+def Field.isRest : Field → Bool
+  | .rest .. => true
+  | _ => false
 
 def Field.emitsKids : Field → Bool
   | .attr .. => false
   | .attrReadOnly .. => false
   | .attrRW .. => false
+  | .attrReq .. => false
   | _ => true
 
 /-- the children of the element that influence what field `f` reads -/
@@ -676,6 +831,7 @@ def Field.sees (pns : Str) : Field → Node → Bool
   | .attr .., _ => false
   | .attrReadOnly .., _ => false
   | .attrRW .., _ => false
+  | .attrReq .., _ => false
   | .text _, _ => true
   | .enumChild ns _ anyNs _ _, k => matchesNs ns anyNs pns k
   | .tagChild ns _ anyNs names skip knownOnly _ _, k => tagCand ns anyNs names skip knownOnly pns k
@@ -683,12 +839,14 @@ def Field.sees (pns : Str) : Field → Node → Bool
   | .many h _ _, k => h.matches pns k
   | .strSet h, k => h.matches pns k
   | .formValue _ _ _ vh _ _ oh _ _, k => vh.matches pns k || oh.matches pns k
+  | .rest p excl, k => k.isElem && !exclAny excl p k
 
 /-- the attribute names field `f` reads -/
 def Field.reads : Field → Str → Bool
   | .attr n _ _, k => n == k
   | .attrReadOnly n _, k => n == k
   | .attrRW r _ _ _, k => r == k
+  | .attrReq n _, k => n == k
   | .formValue a .., k => a == k
   | _, _ => false
 
@@ -696,6 +854,7 @@ def Field.reads : Field → Str → Bool
 def Field.writes : Field → Str → Bool
   | .attr n _ _, k => n == k
   | .attrRW _ w _ _, k => w == k
+  | .attrReq n _, k => n == k
   | .formValue a .., k => a == k
   | _, _ => false
 
@@ -703,6 +862,7 @@ def Field.writes : Field → Str → Bool
 def Field.wname : Field → Option Str
   | .attr n _ _ => some n
   | .attrRW _ w _ _ => some w
+  | .attrReq n _ => some n
   | .formValue a .. => some a
   | _ => none
 
@@ -712,12 +872,32 @@ def indepA (f g : Field) : Bool :=
   | some w => !f.reads w
   | none => true
 
+/-- the rest's exclusion list claims at least every child that field `f` can see -/
+def Field.covered (excl : List Pat) : Field → Bool
+  | .attr .. => true
+  | .attrReadOnly .. => true
+  | .attrRW .. => true
+  | .attrReq .. => true
+  | .text _ => false
+  | .enumChild ns _ anyNs _ _ => excl.any fun e => e.coversLookup true [] anyNs ns
+  | .tagChild ns _ anyNs _ _ _ _ _ => excl.any fun e => e.coversLookup true [] anyNs ns
+  | .child h _ _ => excl.any fun e => e.coversLookup h.anyTag h.tag h.anyNs h.ns
+  | .many h _ _ => excl.any fun e => e.coversLookup h.anyTag h.tag h.anyNs h.ns
+  | .strSet h => excl.any fun e => e.coversLookup h.anyTag h.tag h.anyNs h.ns
+  | .formValue _ _ _ vh _ _ oh _ _ =>
+    (excl.any fun e => e.coversLookup vh.anyTag vh.tag vh.anyNs vh.ns) && (excl.any fun e => e.coversLookup oh.anyTag oh.tag oh.anyNs oh.ns)
+  | .rest .. => false
+
 /-- child elements: nothing that `g` writes is visible to the way `f` reads -/
 def indepK (f g : Field) : Bool :=
+  match g with
+  | .rest _ excl => f.covered excl
+  | _ =>
   match f with
   | .attr .. => true
   | .attrReadOnly .. => true
   | .attrRW .. => true
+  | .attrReq .. => true
   | .text _ => !g.emitsKids
   | .enumChild ns _ anyNs _ _ =>
     match g with
@@ -745,6 +925,10 @@ def indepK (f g : Field) : Bool :=
     | .text _ => true
     | _ => g.heads.all fun hd => !(((vh.anyTag || hd.1 == vh.tag) && (vh.anyNs || hd.2 == vh.ns))
         || ((oh.anyTag || hd.1 == oh.tag) && (oh.anyNs || hd.2 == oh.ns)))
+  | .rest _ excl =>
+    match g with
+    | .text _ => true
+    | _ => g.heads.all fun hd => excl.any fun e => e.covers hd
 
 /-- `indep f g`: nothing that `g` writes is visible to the way `f` reads -/
 def indep (f g : Field) : Bool := indepA f g && indepK f g
@@ -762,6 +946,7 @@ mutual
     | .attr _ ty omitD => omitD && ty.isDefault (ty.parse [])
     | .attrReadOnly _ _ => true
     | .attrRW _ _ ty omitD => omitD && ty.isDefault (ty.parse [])
+    | .attrReq .. => false
     | .text ty => (ty.show (ty.parse [])).isEmpty
     | .enumChild .. => true
     | .tagChild .. => true
@@ -769,10 +954,12 @@ mutual
       match mode with
       | .optional => true
       | .wrapAlways => false
+      | .wrapAll m => quietFs fs && maskHits m fs
       | _ => quietFs fs
     | .many .. => true
     | .strSet _ => true
     | .formValue .. => false
+    | .rest .. => true
   def quietFs : List Field → Bool
     | [] => true
     | f :: fs => quietF f && quietFs fs
@@ -783,11 +970,13 @@ mutual
     | .attr name ty _ => name != xmlnsKey && ty.wf
     | .attrReadOnly _ _ => false
     | .attrRW .. => false
+    | .attrReq name ty => name != xmlnsKey && ty.wf
     | .text ty => ty.wf
     | .enumChild ns decl _ names _ => (decl || ns == pns) && !names.contains [] && nodupB names
     | .tagChild ns decl _ names skip _ _ _ =>
       (decl || ns == pns) && !names.contains [] && nodupB names && names.all fun n => !skip.contains n
     | .child h fs mode => h.ok pns && h.extraOk fs && wfFs h.ns fs && (!mode.isGuard || quietFs fs)
+        && (!mode.isAll || (quietFs fs && maskHits mode.guardN fs))
     | .many h fs _ => h.ok pns && h.extraOk fs && wfFs h.ns fs
     | .strSet h => h.ok pns && h.extraOk []
     | .formValue a names dflt vh _ de oh ofs _ =>
@@ -795,18 +984,19 @@ mutual
         && vh.ok pns && vh.extraOk [] && oh.ok pns && oh.extraOk ofs && wfFs oh.ns ofs
         && !((vh.anyTag || oh.tag == vh.tag) && (vh.anyNs || oh.ns == vh.ns))
         && !((oh.anyTag || vh.tag == oh.tag) && (oh.anyNs || vh.ns == oh.ns))
+    | .rest p _ => p == pns
   def wfFs (pns : Str) : List Field → Bool
     | [] => true
     | f :: fs => wfF pns f && fs.all (fun g => indep f g && indep g f) && wfFs pns fs
 end
 
-/-! mandatory parts: `fromDom` rejects the element when they are missing.  Supported at the top level
-and inside wrappers, not inside optional records or repeated items (`mandPlaced`). -/
+/-! schemas without mandatory parts at the top level / inside wrappers (`mandPlaced`: not inside optional records) -/
 mutual
   def noMandF : Field → Bool
     | .enumChild _ _ _ _ m => !m
     | .child _ fs _ => noMandFs fs
-    | .many _ fs ne => !ne && noMandFs fs
+    | .many _ _ ne => !ne
+    | .attrReq .. => false
     | _ => true
   def noMandFs : List Field → Bool
     | [] => true
@@ -815,30 +1005,11 @@ end
 
 mutual
   def mandPlacedF : Field → Bool
-    | .child _ fs mode => if mode == .optional || mode.isGuard then noMandFs fs else mandPlacedFs fs
-    | .many _ fs _ => noMandFs fs
+    | .child _ fs mode => if mode == .optional || mode.isGuard || mode.isAll then noMandFs fs else mandPlacedFs fs
     | _ => true
   def mandPlacedFs : List Field → Bool
     | [] => true
     | f :: fs => mandPlacedF f && mandPlacedFs fs
-end
-
-mutual
-  /-- mandatory parts carry a value -/
-  def mandF : Field → Val → Bool
-    | .enumChild _ _ _ _ m, v => !m || v.isSomeOpt
-    | .many _ _ ne, v =>
-      match v with
-      | .list items => !ne || !items.isEmpty
-      | _ => true
-    | .child _ fs mode, v =>
-      match v with
-      | .record vs => mode == .optional || mandOK fs vs
-      | _ => true
-    | _, _ => true
-  def mandOK : List Field → List Val → Bool
-    | f :: fs, v :: vs => mandF f v && mandOK fs vs
-    | _, _ => true
 end
 
 /-! ## classes -/
